@@ -201,3 +201,54 @@ Definition show_out (o : out) : string :=
 (* the (MAC, IP, online) triples the property talks about *)
 Definition show_triple (e : ip * host) : string :=
   show_mac (h_mac (snd e)) ++ "/" ++ show_ip (fst e) ++ "/" ++ b01 (h_online (snd e)).
+
+(* ---------- kind rt: REAL-TIME histories ----------
+   The library reads the clock itself (findOrCreateHostWithLock: time.Now() for LastSeen; NewSession).  The harness runs a
+   schedule with real sleeps, records time.Now() before and after every call (milliseconds since the start of the
+   session; the deadlines of the configuration are milliseconds too) and hands the model TWO time assignments:
+     B: every call that stamps LastSeen at the START of its interval, every purge at the END  (most ageing)
+     C: every call that stamps LastSeen at the END of its interval, every purge at the START  (least ageing)
+   All comparisons of the model are of the form  last < now - deadline, monotone in now - last, so when the two runs give
+   the same transcript every choice of instants inside the intervals does.  Otherwise the case is "timing-ambiguous".
+   Transcript per step: GetHosts triples | addresses ordered by LastSeen (an ORDER, not values) | drained notifications. *)
+Definition last_leb (a b : ip * host) : bool :=
+  (h_last (snd a) <? h_last (snd b))%Z || ((h_last (snd a) =? h_last (snd b))%Z && ip_leb (fst a) (fst b)).
+
+Definition show_rt (s : state) (em : list notif) : string :=
+  "G:" ++ join "," (map show_triple (sorted_hosts s)) ++
+  "|ord=" ++ join "<" (map (fun e => show_ip (fst e)) (sort_by last_leb (sorted_hosts s))) ++
+  "|n:" ++ join "," (map (fun n => show_ip (nt_ip n) ++ "/" ++ b01 (nt_online n)) em).
+
+Fixpoint run_rt (c : cfg) (s : state) (ops : list pop) : list string :=
+  match ops with
+  | [] => []
+  | p :: r =>
+      let s1 := fst (step c s (resolve s p)) in
+      let em := match p with
+                | PPurge _ => sort_by (fun a b => ip_leb (nt_ip a) (nt_ip b)) (chan s1)
+                | _ => chan s1 end in
+      let s2 := set_chan [] s1 in
+      show_rt s2 em :: run_rt c s2 r
+  end.
+
+Definition rt_transcript (c : cfg) (t0 : Z) (ops : list pop) : option string :=
+  match new_session c t0 with
+  | Ok s0 => Some (join ";" (show_rt s0 [] :: run_rt c s0 (map (debyte c) ops)))
+  | _ => None
+  end.
+
+(* args: <cfg> <recorded observation> <t0 B> <t0 C> <ops B ...> <ops C ...> (two halves of equal length) *)
+Definition rt_model (args : list string) : string :=
+  match args with
+  | ctok :: _obs :: tb :: tc :: rest =>
+      let n := Nat.div2 (List.length rest) in
+      match cfg_of_tok ctok, Z_of_dec tb, Z_of_dec tc, ops_of_toks (firstn n rest), ops_of_toks (skipn n rest) with
+      | Some c, Some tb, Some tc, Some opsB, Some opsC =>
+          match rt_transcript c tb opsB, rt_transcript c tc opsC with
+          | Some x, Some y => if String.eqb x y then x else "timing-ambiguous"
+          | _, _ => "panic"
+          end
+      | _, _, _, _, _ => BADARGS
+      end
+  | _ => BADARGS
+  end.
